@@ -107,8 +107,9 @@ func checkActions(c *Ctx, bounds bool) error {
 
 func actionsRunBatch(c *Ctx, r *rng.R, b *run.Batch, cases []*PCase, bounds bool) {
 	type item struct {
-		pc   *PCase
-		toks []hc.Token
+		pc    *PCase
+		toks  []hc.Token
+		recov bool // not a sentence: error recovery runs; only the self-consistency monitor applies
 	}
 	items := map[int]*item{}
 	var jobs []hc.Job
@@ -146,7 +147,16 @@ func actionsRunBatch(c *Ctx, r *rng.R, b *run.Batch, cases []*PCase, bounds bool
 				}
 			}
 		}
-		for _, w := range ws {
+		nSent := len(ws)
+		if bounds && pc.Opt.Bounds && pc.G.HasErr() && !hasStarF(pc.G) {
+			// non-sentences: recovery discards part of the stack, later
+			// reductions reach below the recovery point
+			alpha := pc.G.Alphabet()
+			for k := 0; k < c.N(40, 120); k++ {
+				ws = append(ws, garbage(rr, pc, alpha))
+			}
+		}
+		for wi, w := range ws {
 			toks := make([]hc.Token, len(w))
 			pj := hc.ParseJob{Rec: true}
 			for k, t := range w {
@@ -159,7 +169,7 @@ func actionsRunBatch(c *Ctx, r *rng.R, b *run.Batch, cases []*PCase, bounds bool
 				pj.Toks = append(pj.Toks, [2]int{t, dv})
 			}
 			id++
-			items[id] = &item{pc: pc, toks: toks}
+			items[id] = &item{pc: pc, toks: toks, recov: wi >= nSent}
 			jobs = append(jobs, run.MkJob(id, pc.Pkg.Name, "parse", pj))
 		}
 	}
@@ -220,6 +230,25 @@ func actionsRunBatch(c *Ctx, r *rng.R, b *run.Batch, cases []*PCase, bounds bool
 		}
 		if hasErrTok {
 			c.Ev.Count("inputs_with_shifted_ERROR_tokens", 1)
+		}
+		if bounds && pc.Opt.Bounds && !hasStarF(pc.G) {
+			// (a `x*!` list leaves out discarded elements that its bounds
+			// still cover: the monitor cannot see those children)
+			n, why := boundsSelfConsistent(res.Events)
+			c.Ev.Count("bounds_calls_checked_against_children", n)
+			if it.recov && res.NErr > 0 {
+				c.Ev.Count("recovery_runs_monitored", 1)
+				if n >= 3 {
+					c.Ev.Distinct(fmt.Sprintf("%x|%v|recov", sha256.Sum256([]byte(pc.Lox)), it.toks))
+				}
+			}
+			if why != "" {
+				report("bounds-do-not-match-children", why, nil, sem.Show(res.Events))
+				continue
+			}
+		}
+		if it.recov {
+			continue
 		}
 		if res.Panic != "" || res.Stop != "" || !res.OK || (res.NErr != 0 && !hasErrTok) {
 			report("sentence-not-parsed-cleanly", fmt.Sprintf("ok=%v nerr=%d stop=%q panic=%q", res.OK, res.NErr, res.Stop, firstLine(res.Panic)), nil, res)
@@ -392,4 +421,143 @@ func wideProductions(c *Ctx) {
 			c.Violation("action-calls-differ/wide-productions", pc.replay(fmt.Sprintf("input of %s: %s", desc, diff), []hc.Job{jobs[i]}, nil, nil))
 		}
 	}
+}
+
+// boundsSelfConsistent is a monitor over one recorded parse that needs no
+// reference parse, so it also applies to runs with error recovery: every
+// _onBounds call must carry the first token of the leftmost and the last token
+// of the rightmost non-empty child of the reduction it follows, where the
+// span of a child is the token itself, the span reported for that node
+// earlier, or the spans of a list's elements. Children that are Error values
+// have no span the property defines: a side bounded by one is not judged.
+// A node whose children are all known to be empty must not get a call.
+func boundsSelfConsistent(evs []hc.Event) (checked int, why string) {
+	type span struct {
+		b, e           int
+		empty, unknown bool
+	}
+	spanOf := map[int]span{}    // node id -> reported span
+	argsOf := map[int][]hc.Arg{} // node id -> arguments of the action that built it
+	var of func(a hc.Arg) span
+	join := func(parts []hc.Arg) span {
+		res := span{empty: true}
+		first := true
+		for _, x := range parts {
+			s := of(x)
+			if s.empty {
+				continue
+			}
+			if first {
+				res = s
+				first = false
+				if s.unknown {
+					res.b = -1
+				}
+				continue
+			}
+			res.empty = false
+			if s.unknown {
+				res.e = -1
+			} else {
+				res.e = s.e
+			}
+		}
+		if !first && res.unknown {
+			// only the sides bounded by an Error are unknown
+			res.unknown = false
+		}
+		return res
+	}
+	of = func(a hc.Arg) span {
+		switch a.K {
+		case "t":
+			return span{b: a.V, e: a.V}
+		case "z":
+			return span{empty: true}
+		case "e":
+			return span{unknown: true, b: -1, e: -1}
+		case "n":
+			if s, ok := spanOf[a.V]; ok {
+				return s
+			}
+			// no call was made for that node: it derived nothing
+			return span{empty: true}
+		case "l":
+			// The separators of a @list are not in the list but inside its
+			// span: next to an empty first or last element it is a separator
+			// that bounds the list, which this monitor cannot see.
+			if len(a.L) == 0 {
+				return span{empty: true}
+			}
+			s := join(a.L)
+			if s.empty {
+				if len(a.L) == 1 {
+					return s
+				}
+				return span{b: -1, e: -1}
+			}
+			if of(a.L[0]).empty {
+				s.b = -1
+			}
+			if of(a.L[len(a.L)-1]).empty {
+				s.e = -1
+			}
+			return s
+		}
+		return span{unknown: true, b: -1, e: -1}
+	}
+	for i, ev := range evs {
+		switch ev.K {
+		case "a":
+			argsOf[ev.Ret] = ev.Args
+		case "b":
+			if ev.R == nil {
+				continue
+			}
+			var want span
+			switch {
+			case ev.R.K == "n" && i > 0 && evs[i-1].K == "a" && evs[i-1].Ret == ev.R.V:
+				want = join(argsOf[ev.R.V])
+			case ev.R.K == "n":
+				s, ok := spanOf[ev.R.V]
+				if !ok {
+					continue
+				}
+				want = s
+			case ev.R.K == "l":
+				want = of(*ev.R)
+			case ev.R.K == "t":
+				want = span{b: ev.R.V, e: ev.R.V}
+			default:
+				continue
+			}
+			checked++
+			if want.empty {
+				return checked, fmt.Sprintf("event %d: _onBounds(tok#%d, tok#%d) was called for a reduction whose children all derive nothing", i, ev.B, ev.E)
+			}
+			if want.b > 0 && ev.B != want.b {
+				return checked, fmt.Sprintf("event %d: _onBounds reports tok#%d as first token, the leftmost non-empty child of the reduction begins at tok#%d", i, ev.B, want.b)
+			}
+			if want.e > 0 && ev.E != want.e {
+				return checked, fmt.Sprintf("event %d: _onBounds reports tok#%d as last token, the rightmost non-empty child of the reduction ends at tok#%d", i, ev.E, want.e)
+			}
+			if ev.R.K == "n" {
+				spanOf[ev.R.V] = span{b: ev.B, e: ev.E}
+			}
+		}
+	}
+	return checked, ""
+}
+
+func hasStarF(g *gram.Grammar) bool {
+	for _, r := range g.Rules {
+		for _, p := range r.Prods {
+			for _, t := range p.Terms {
+				if t.Sugar == gram.StarF {
+					return true
+				}
+			}
+		}
+	}
+	return false
 }
